@@ -4,6 +4,8 @@
 From Coq Require Import ZArith List Reals.
 From Flocq Require Import Core IEEE754.BinarySingleNaN IEEE754.Binary IEEE754.Bits.
 From SA Require Import Score.BM25 Score.BM25_Real Score.BM25_Proofs Score.BM25_Accuracy2.
+From SA Require Import Base.Prelude Index.Index Index.Index_Spec Query.Phrase Query.Phrase_Spec Query.Phrase_Repeats
+  View.View_Phrase3 Score.Score Score.Score_Stats.
 Import ListNotations.
 
 (* documents with tf = 0 score exactly 0 — for ALL parameters (k1 rounding to 0, b rounding to 1, NaN idf ...) *)
@@ -96,3 +98,105 @@ Print Assumptions C04_formula_zero.
 Print Assumptions C04_denominator_positive.
 Print Assumptions C04_legacy_is_k1_plus_1_times_modern.
 Print Assumptions C04_default_accuracy.
+
+(* ================= THE SIMILARITY IS CALLED WITH THE INDEX'S OWN STATISTICS (Score/Score_Stats.v) =================
+   SearchArray.score (postings.py 649-680) calls  similarity(tfs, all_dfs, doc_lens, avg_doc_length, corpus_size);
+   Score.score_args is that tuple on the index model, as (tfs, dfs, doc_lens, total, n): the model hands over the
+   sum of the lengths and the number of rows and the average is total / n (avg_doc_length = np.mean of the float32
+   lengths = the correctly rounded total / n; 0 when n = 0).  docs = the tokenizer's output per document.
+   Every corpus within the limits, every batch size. *)
+
+(* one term, present in the corpus or not (absent: a vector of zeros and df = 0, which is what the specs say):
+   per-document counts of the term, ITS document frequency, the lengths / total length / number of rows of the whole corpus *)
+Theorem C04_statistics_single_term : forall docs bs ix,
+  wf_docs docs -> index false bs docs = AOk ix -> forall t,
+  score_args ix [t] =
+    AOk (tf_spec docs t, [df_spec docs t], lens_spec docs, total_spec docs, N.of_nat (length docs)).
+Proof. exact score_args_single_term. Qed.
+Print Assumptions C04_statistics_single_term.
+
+(* two or more terms (ANY term list: immediate repetitions, absent terms): the call succeeds; the frequency vector is the
+   phrase path's answer, one entry per document, positive exactly where the phrase occurs contiguously and between the
+   non-overlapping and the overlapping occurrence counts (C03), EQUAL to the occurrence count when the phrase mentions
+   two different terms; the document frequencies are one per query term IN QUERY ORDER; lengths / total / n are the corpus's *)
+Theorem C04_statistics_phrase : forall docs bs ix,
+  wf_docs docs -> index false bs docs = AOk ix -> forall ts, (2 <= length ts)%nat ->
+  exists tfs,
+    phrase_freqs ix ts = AOk tfs /\
+    score_args ix ts = AOk (tfs, map (df_spec docs) ts, lens_spec docs, total_spec docs, N.of_nat (length docs)) /\
+    length tfs = length docs /\
+    (forall d, (d < length docs)%nat ->
+       (nth d tfs 0 > 0 <-> occ ts (nth d docs []) > 0)%N /\
+       (nonoverlapping ts (nth d docs []) <= nth d tfs 0 <= occ ts (nth d docs []))%N) /\
+    (is_const ts = false -> tfs = phrase_spec docs ts).
+Proof. exact score_args_phrase. Qed.
+Print Assumptions C04_statistics_phrase.
+
+(* the property's "distinct-term phrase queries" (and every other phrase that is not one term repeated), in closed form *)
+Theorem C04_statistics_phrase_exact : forall docs bs ix,
+  wf_docs docs -> index false bs docs = AOk ix -> forall ts, (2 <= length ts)%nat -> is_const ts = false ->
+  score_args ix ts =
+    AOk (phrase_spec docs ts, map (df_spec docs) ts, lens_spec docs, total_spec docs, N.of_nat (length docs)).
+Proof. exact score_args_phrase_exact. Qed.
+Print Assumptions C04_statistics_phrase_exact.
+Theorem C04_no_adjacent_repeat_is_not_const : forall ts, (2 <= length ts)%nat ->
+  no_adjacent_repeat ts = true -> is_const ts = false.
+Proof. exact no_adjacent_repeat_not_const. Qed.
+Print Assumptions C04_no_adjacent_repeat_is_not_const.
+
+(* default / parameterised BM25 = the binary32 kernel on exactly those statistics (idf, k1, b: binary64 bit patterns) *)
+Theorem C04_default_score_over_the_statistics : forall docs bs ix,
+  wf_docs docs -> index false bs docs = AOk ix -> forall ts idf k1 b,
+  (length ts = 1 \/ (2 <= length ts /\ is_const ts = false))%nat ->
+  score_bm25 ix ts idf k1 b =
+    AOk (score_bits (map Z.of_N (match ts with [t] => tf_spec docs t | _ => phrase_spec docs ts end))
+                    (map Z.of_N (lens_spec docs)) (Z.of_N (total_spec docs)) (Z.of_N (N.of_nat (length docs))) idf k1 b).
+Proof. exact score_bm25_on_spec. Qed.
+Print Assumptions C04_default_score_over_the_statistics.
+
+(* The same for selections (views): C06_score_statistics in Props/C06.v — view tf and view lengths, PARENT df / total / n. *)
+
+(* idf.  The model does not compute it: score_bm25 takes the bit pattern as an input and the harness evaluates
+   np.sum(np.log(1 + (n - dfs + 0.5) / (dfs + 0.5)))  (similarity.py compute_idf; harness/props/c04.py idf_of) on the
+   document frequencies above.  The formula over R: a sum over the query's terms — additive, independent of the order
+   of the terms, strictly positive on the range of the index's statistics (0 <= df <= n). *)
+Theorem C04_phrase_idf_is_sum_over_terms : forall n a b,
+  (phrase_idf n (a ++ b) = phrase_idf n a + phrase_idf n b)%R.
+Proof. exact phrase_idf_app. Qed.
+Print Assumptions C04_phrase_idf_is_sum_over_terms.
+Theorem C04_phrase_idf_unfold : forall n df dfs, (phrase_idf n (df :: dfs) = idf_of n df + phrase_idf n dfs)%R.
+Proof. exact phrase_idf_cons. Qed.
+Print Assumptions C04_phrase_idf_unfold.
+Theorem C04_phrase_idf_order_independent : forall n a b, Permutation.Permutation a b -> phrase_idf n a = phrase_idf n b.
+Proof. exact phrase_idf_perm. Qed.
+Print Assumptions C04_phrase_idf_order_independent.
+Theorem C04_phrase_idf_positive : forall n dfs, dfs <> [] -> Forall (fun df => 0 <= df <= n)%R dfs ->
+  (0 < phrase_idf n dfs)%R.
+Proof. exact phrase_idf_pos. Qed.
+Print Assumptions C04_phrase_idf_positive.
+(* ... in particular on the document frequencies handed over by score_args *)
+Theorem C04_query_idf_positive : forall docs ts, ts <> [] ->
+  (0 < phrase_idf (R_of_N (N.of_nat (length docs))) (map (fun t => R_of_N (df_spec docs t)) ts))%R.
+Proof. exact query_idf_pos. Qed.
+Print Assumptions C04_query_idf_positive.
+(* the same formula as idf_term / idf_sum above *)
+Theorem C04_idf_of_is_idf_term : forall n df, idf_of n df = idf_term n df.
+Proof. exact idf_of_is_idf_term. Qed.
+Print Assumptions C04_idf_of_is_idf_term.
+
+(* non-vacuity: a 4-document corpus (one empty document), batch size 3; the phrase [1;2] (twice in document 0, not in
+   [2;1]), its reverse, a phrase with an absent term, a phrase with an immediate repetition, a rare and an absent term *)
+Example C04_statistics_example :
+  let docs := [[1;2;1;2;3];[];[2;1];[1;1;2;7]]%N in
+  wf_docs docs /\
+  match index false 3 docs with
+  | AOk ix =>
+      score_args ix [1;2]%N = AOk ([2;0;0;1], [3;3], [5;0;2;4], 11, 4)%N /\
+      score_args ix [1;2]%N = AOk (phrase_spec docs [1;2]%N, map (df_spec docs) [1;2]%N, lens_spec docs, total_spec docs, 4%N) /\
+      score_args ix [2;1]%N = AOk ([1;0;1;0], [3;3], [5;0;2;4], 11, 4)%N /\
+      score_args ix [1;9]%N = AOk ([0;0;0;0], [3;0], [5;0;2;4], 11, 4)%N /\
+      score_args ix [1;1;2]%N = AOk ([0;0;0;1], [3;3;3], [5;0;2;4], 11, 4)%N /\
+      score_args ix [7]%N = AOk ([0;0;0;1], [1], [5;0;2;4], 11, 4)%N /\
+      score_args ix [9]%N = AOk ([0;0;0;0], [0], [5;0;2;4], 11, 4)%N
+  | _ => False end.
+Proof. split; [exact stats_ex_wf|vm_compute; repeat split]. Qed.
